@@ -21,7 +21,7 @@ from mcx.build import Scratch, generic_points
 from mcx.core import Check
 from mcx.ref import gro as ref
 
-NAMES = ('A', 'AB', 'ABCDE', '1', 'H12', 'O-', 'O.w', 'T.3P.')   # any non-blank characters, dots included
+NAMES = ('A', 'AB', 'ABCDE', '1', 'H12', 'O-', 'O.w', 'T.3P.', 'C{1}', '{}', "O5'", '%s')   # any non-blank characters
 NUMBERS = (0, 1, 9, 99998, 99999, 100000, 100001, 199998, 1234567, 10 ** 7)
 FORMATS = (None, 1, 2, 3, 4, 5, 6)          # None = no position format set (default 8.3)
 TITLES = {
@@ -141,6 +141,7 @@ def build_spec(case, seed):
         spec['box'] = BOXES[case['box']]
         spec['declared'] = bool(case['declared'])
         spec['bulk'] = True
+        spec['boxform'] = case.get('boxform')
     elif p == 'P4':
         rn, an = P4_NAMES[case['names']]
         num = case['num']
@@ -190,7 +191,12 @@ def roundtrip(path, spec):
     try:
         if spec['title'] is not None:
             g.comment = spec['title']
-        g.box_matrix = spec['box']
+        box = spec['box']
+        if spec.get('boxform') == 'farray':              # the same box as a Fortran-ordered array
+            box = np.asfortranarray(np.array(box, dtype=float))
+        elif spec.get('boxform') == 'tview':             # ... as a transposed view of a C-ordered array
+            box = np.array(box, dtype=float).T.copy().T
+        g.box_matrix = box
         if spec['fmt'] is not None:
             g.position_format = (spec['fmt'] + 5, spec['fmt'])
         if spec['declared']:
@@ -304,7 +310,7 @@ class C13(Check):
             'file with >= 1 atom record that the real reader was then asked to read')
     technique = ('exhaustive enumeration of four input sub-products on the real GroFile writer and reader over '
                  'real files; statement oracle + independent reference reader on the written bytes')
-    level_text = ('every member of P1 (6x6 names x 10x10 numbers), P2 (7 formats x 54 boundary triples x velocities x '
+    level_text = ('every member of P1 (12x12 names x 10x10 numbers), P2 (7 formats x 54 boundary triples x velocities x '
                   '1..3 records), P3 (7 formats x velocities x 5 titles x 10 boxes (incl. one for each single off-diagonal component) x count mode), P4 (interaction product, '
                   '3024 x 1..3 records) and 299/300-record files is written by the real writer to a real file and read '
                   'back, in both tiers; thorough adds the full 18^3 cube of the coordinate alphabet per format x velocities '
@@ -395,6 +401,10 @@ class C13(Check):
                     for dec in (0, 1):
                         yield {'p': 'P3', 'fmt': unit['fmt'], 'vel': unit['vel'], 'title': title,
                                'box': box, 'declared': dec}
+                    if box != 'vec' and title == 't':
+                        for form in ('farray', 'tview'):
+                            yield {'p': 'P3', 'fmt': unit['fmt'], 'vel': unit['vel'], 'title': title,
+                                   'box': box, 'declared': 0, 'boxform': form}
         elif p == 'P4':
             for names in range(len(P4_NAMES)):
                 for num in P4_NUMBERS:
